@@ -768,10 +768,67 @@ def _option_helper_of(F, calls, field, depth=2):
     return False
 
 
+_VERDICT_CACHE = {}
+
+
+def option_verdict_helper(F, fn, field):
+    """is `fn` a crate function returning a Result whose verdict is decided by the Option behind `field`
+    (`fn check(&self) -> Result<()> { match &*self.slot.lock() { Some(e) => Err(..), None => Ok(()) } }`)?
+    Returns (some_is_err, none_is_ok): with the Option Some no success return is reachable / with it None no error exit is."""
+    k = (id(F), fn, field)
+    if k in _VERDICT_CACHE:
+        return _VERDICT_CACHE[k]
+    _VERDICT_CACHE[k] = (False, False)
+    hb = F.bodies.get(fn)
+    res = (False, False)
+    if hb is not None and '{closure' not in fn and str(hb.locals[0]).startswith('std::result::Result<'):
+        errs = core.error_exit_blocks(hb)
+        some = prune_option_field(hb, field, True)
+        none = prune_option_field(hb, field, False)
+        if some and none and errs:
+            some_is_err = hb.find_path([0], hb.return_blocks(), removed=set(errs), removed_edges=some) is None
+            none_is_ok = hb.find_path([0], set(errs), removed_edges=none) is None
+            res = (some_is_err, none_is_ok)
+    _VERDICT_CACHE[k] = res
+    return res
+
+
+def option_gate_sites(body, field, builds=None):
+    """(gate blocks, examine blocks) of `body` for the Option behind `field`: the blocks entered with the refusal (an aggregate
+    `builds` made in the body, or the error arm of a call to a verdict helper - see option_verdict_helper) and the blocks where
+    the slot is looked at (its lock call / the helper call)."""
+    F = body.facts
+    gate, look = [], []
+    for bi in body.normal_blocks():
+        if builds and any(s['k'] == 'assign' and s['r']['k'] == 'agg' and s['r']['ak'] == builds for s in body.blocks[bi]['s']):
+            gate.append(bi)
+        t = body.term(bi)
+        if t['k'] != 'call':
+            continue
+        if call_matches(t, ['re:Mutex.*::lock$', 're:RwLock.*::(read|write)$']) and t['a'] and field in receiver_fields(body, t, 0):
+            look.append(bi)
+        for n in call_names(t):
+            if n in F.bodies and option_verdict_helper(F, n, field)[0]:
+                hb = F.bodies[n]
+                if not builds or any(s['k'] == 'assign' and s['r']['k'] == 'agg' and s['r']['ak'] == builds for b2 in hb.blocks for s in b2['s']):
+                    gate.extend(result_err_targets(body, bi)); look.append(bi)
+    return sorted(set(gate)), sorted(set(look))
+
+
 def prune_option_field(body, field, keep_some):
     """assume the Option behind `field` is Some (keep_some) / None: edges to remove for switches on
     a discriminant whose backward slice (no binops) contains `field`."""
     removed = set()
+    # the verdict of a helper that turns the Option into a Result (Some => Err, None => Ok), looked at through `?` or a match
+    F = body.facts
+    for bi, t in body.calls():
+        for n in call_names(t):
+            if n in F.bodies and n != body.path and str(F.bodies[n].locals[0]).startswith('std::result::Result<'):
+                some_is_err, none_is_ok = option_verdict_helper(F, n, field)
+                if (keep_some and some_is_err) or (not keep_some and none_is_ok):
+                    for sb, v, tg in result_switch_edges(body, bi):
+                        if (v == 1) != bool(keep_some):
+                            removed.add((sb, tg))
     for bi in body.normal_blocks():
         t = body.term(bi)
         if t['k'] != 'switch':
@@ -1747,6 +1804,12 @@ def bool_outcome_edges(body, call_blocks):
 def result_err_targets(body, call_block):
     """blocks entered when the Result returned by the call in `call_block` is Err: the Break arm of `?` (Try::branch) or the
     variant-1 arm of a `match` on the result."""
+    return [tg for _, v, tg in result_switch_edges(body, call_block) if v == 1]
+
+
+def result_switch_edges(body, call_block):
+    """(switch block, discriminant value, target) for the switches on the Result returned by the call in `call_block` (looked at
+    directly or through `?`); the otherwise edge of a one-value switch is reported with the complementary value."""
     t = body.term(call_block)
     if t['k'] != 'call' or len(t['d']) != 1:
         return []
@@ -1775,8 +1838,9 @@ def result_err_targets(body, call_block):
         pl = d[3]['r']['p']
         if len(pl) == 1 and pl[0] in want:
             for v, tg in zip(tt['vals'], tt['ts']):
-                if v == 1:
-                    res.append(tg)
+                res.append((bi, v, tg))
+            if len(tt['vals']) == 1 and tt['vals'][0] in (0, 1):
+                res.append((bi, 1 - tt['vals'][0], tt['ts'][-1]))
     return res
 
 
